@@ -160,7 +160,7 @@ def sortEntries (l : List Entry) : List Entry := l.foldr insertEntry []
 
 /-- `prefix.NewStore(store, pre)` viewed as its sorted entry list, keys stripped of `pre`. -/
 def prefixStore (s : Store) (pre : Bytes) : List Entry :=
-  sortEntries ((s.entries.filter (fun e => pre.isPrefixOf e.1)).map (fun e => (e.1.drop pre.length, e.2)))
+  sortEntries ((Store.entries (s.filter (fun e => pre.isPrefixOf e.1))).map (fun e => (e.1.drop pre.length, e.2)))
 
 def inRange (start stop : Option Bytes) (k : Bytes) : Bool :=
   (match start with | none => true | some st => bytesLe st k) &&
@@ -417,7 +417,8 @@ def nextMarketIDLoop (s : Store) : Nat → UInt32 → UInt32
   | 0, m => m
   | fuel + 1, m => if s.has (keyKnownMarketID m) then nextMarketIDLoop s fuel (m + 1) else m
 
-def knownMarketCount (s : Store) : Nat := (s.entries.filter (fun e => prefixKnownMarket.isPrefixOf e.1)).length
+def knownMarketCount (s : Store) : Nat :=
+  (Store.entries (s.filter (fun e => prefixKnownMarket.isPrefixOf e.1))).length
 
 /-- `nextMarketID` market.go:37.  The Go loop has no bound; `knownMarketCount + 1` iterations are
 enough (theorem `nextMarketID_unused`). -/
